@@ -358,6 +358,7 @@ pub enum HV {
     F32(u32),
     Str(String),
     Char(char),
+    Bytes(Vec<u8>),
     Unit,
     Opaque,
 }
@@ -433,10 +434,16 @@ pub fn host_arity(name: &str) -> Option<usize> {
         }
     }
     Some(match name {
+        | "bytes_empty" | "stdin" | "stdout" | "stderr" => 0,
+        | "random_int" => 1,
+        | "arg_fold" => 2,
+        | "io_read_all" | "io_flush" | "io_close_reader" | "io_close_writer" | "fs_open_reader" | "fs_create_writer"
+        | "fs_append_writer" => 3,
+        | "io_read" | "io_read_line" | "io_write_all" => 4,
         | "str_scalar_length" | "str_byte_length" | "char_to_str" | "char_codepoint" | "read_line" | "exit"
-        | "read_till_eof" => 1,
-        | "str_append" | "write_str" | "write_line" | "write_int" | "read_line_as_int_branch" => 2,
-        | "char_from_codepoint_branch" | "str_parse_int_branch" => 3,
+        | "read_till_eof" | "bytes_length" | "bytes_from_str" => 1,
+        | "str_append" | "write_str" | "write_line" | "write_int" | "read_line_as_int_branch" | "bytes_append" => 2,
+        | "char_from_codepoint_branch" | "str_parse_int_branch" | "bytes_to_str_branch" => 3,
         | "str_eq_branch" | "str_get_branch" | "str_split_at_branch" | "str_split_once_branch" => 4,
         | _ => return None,
     })
@@ -467,6 +474,10 @@ pub fn host_call(name: &str, args: &[HV], io: &mut HostIo) -> Result<HOut, Strin
     let ch = |i: usize| match args.get(i) {
         | Some(HV::Char(c)) => Ok(*c),
         | o => Err(format!("host {name}: argument {i} should be a char, got {o:?}")),
+    };
+    let by = |i: usize| match args.get(i) {
+        | Some(HV::Bytes(b)) => Ok(b.clone()),
+        | o => Err(format!("host {name}: argument {i} should be a byte buffer, got {o:?}")),
     };
     let opaque = |i: usize| match args.get(i) {
         | Some(HV::Opaque) => Ok(()),
@@ -557,6 +568,18 @@ pub fn host_call(name: &str, args: &[HV], io: &mut HostIo) -> Result<HOut, Strin
         | "str_split_once_branch" => match str_split_once(&st(0)?, ch(1)?) {
             | None => HOut::Select(2, vec![]),
             | Some((a, b)) => HOut::Select(3, vec![HV::Str(a), HV::Str(b)]),
+        },
+        | "bytes_empty" => HOut::Ret(HV::Bytes(vec![])),
+        | "bytes_length" => HOut::Ret(i64v(by(0)?.len() as i128)),
+        | "bytes_append" => {
+            let mut b = by(0)?;
+            b.extend(by(1)?);
+            HOut::Ret(HV::Bytes(b))
+        }
+        | "bytes_from_str" => HOut::Ret(HV::Bytes(st(0)?.into_bytes())),
+        | "bytes_to_str_branch" => match String::from_utf8(by(0)?) {
+            | Err(_) => HOut::Select(1, vec![]),
+            | Ok(s) => HOut::Select(2, vec![HV::Str(s)]),
         },
         | "char_to_str" => HOut::Ret(HV::Str(ch(0)?.to_string())),
         | "char_codepoint" => HOut::Ret(i64v(ch(0)? as u32 as i128)),
